@@ -560,7 +560,7 @@ func checkC06Self(u *url.Url, b *url.Url, tok string) {
 		return
 	}
 	class := "self-resolution"
-	if hasAceLabel(u.Hostname()) {
+	if hasAceLabel(u.Hostname()) && (err != nil || v.Hostname() != u.Hostname()) {
 		class = "idn-host"
 	}
 	orc.Fail("C06", class, fmt.Sprintf("%s against %s", q(u.Href(false)), q(b.Href(false))), tok)
@@ -1331,6 +1331,39 @@ func eqLists(a, b refList) bool {
 	return true
 }
 
+// roundTripClassOf classifies a list that did not survive serialize-and-parse by the pairs that were LOST (multiset
+// difference, scalar-value reading): the recorded findings F8 / F8b are about pairs holding a delimiter, an escape, a quote or
+// a control character — a loss of any other pair is not one of them, whatever else the list holds.
+func roundTripClassOf(orig, back refList) string {
+	key := func(p [2]string) string { return scalar(p[0]) + "\x00=" + scalar(p[1]) }
+	have := map[string]int{}
+	for _, p := range back {
+		have[key(p)]++
+	}
+	var lost refList
+	for _, p := range orig {
+		if have[key(p)] > 0 {
+			have[key(p)]--
+		} else {
+			lost = append(lost, p)
+		}
+	}
+	if len(lost) == 0 {
+		return "other"
+	}
+	class := ""
+	for _, p := range lost {
+		c := roundTripClass(refList{p})
+		if c == "other" {
+			return "other"
+		}
+		if class == "" || c == "urlencoded-delimiter-or-escape-in-pair" {
+			class = c
+		}
+	}
+	return class
+}
+
 func roundTripClass(l refList) string {
 	for _, p := range l {
 		if strings.ContainsAny(p[0], "&=+%#") || strings.ContainsAny(p[1], "&+%#") || !utf8Valid(p[0]) || !utf8Valid(p[1]) {
@@ -1489,7 +1522,7 @@ func streamC11(r *Rand, n int, o *Out) {
 		if v, err := url.Parse(u.Href(false)); err == nil {
 			back := pairsOf(v.SearchParams())
 			if !eqLists(back, ref) {
-				orc.Fail("C11", roundTripClass(ref), fmt.Sprintf("list %q serializes to %s which parses to %q", ref, q(u.Query()), back), strings.Join(h.ops, " ; "))
+				orc.Fail("C11", roundTripClassOf(ref, back), fmt.Sprintf("list %q serializes to %s which parses to %q", ref, q(u.Query()), back), strings.Join(h.ops, " ; "))
 			}
 		}
 		o.EmitHist("s", h)
